@@ -90,8 +90,15 @@ func cloneBundle(b *bundle.Bundle) *bundle.Bundle {
 }
 
 // signStep mirrors sign-bundle's addSignature on a copy; returns the new bundle or an error (nothing committed).
+// signInPlace: the signers of a history work on ONE bundle object, as a program that adds several signatures in memory
+// does (the copy signStep otherwise makes before every signer would hide state shared between bundles and signers)
+var signInPlace bool
+
 func signStep(b *bundle.Bundle, s *bsigner, date time.Time, dur time.Duration, rs int, signed *[]map[string]interface{}) (*bundle.Bundle, error) {
 	nb := cloneBundle(b)
+	if signInPlace {
+		nb = b
+	}
 	vu, _ := url.Parse("https://" + s.name + ".example/validity")
 	signer, err := signature.NewSigner(nb.Version, s.chain(), s.kcs[0].key, vu, date, dur)
 	if err != nil {
@@ -235,6 +242,7 @@ func bsigRun(args []string) error {
 				var signed []map[string]interface{}
 				expect := []int{-1, -1, -1}
 				chains := []int{}
+				signInPlace = seq[0] == s6 || si%3 == 0
 				for _, s := range seq {
 					nb, err := signStep(b, s, time.Unix(date, 0), time.Duration(dur)*time.Second, rs, &signed)
 					if err != nil {
@@ -250,7 +258,7 @@ func bsigRun(args []string) error {
 					chains = append(chains, len(s.kcs))
 					b = nb
 					// optional write/read round trip between signers
-					if r.Intn(2) == 0 {
+					if r.Intn(2) == 0 && seq[0] != s6 {
 						f, _, werr, _ := writeBundle(b, "plain")
 						if werr != nil {
 							return werr
@@ -262,6 +270,7 @@ func bsigRun(args []string) error {
 						b = rb
 					}
 				}
+				signInPlace = false
 				file, _, werr, _ := writeBundle(b, "plain")
 				if werr != nil {
 					return werr
@@ -281,7 +290,7 @@ func bsigRun(args []string) error {
 					prev = func() {
 						saved := ctx.urls
 						ctx.urls = purls
-						ctx.verifyEvent(cloneBundle(pb), pdate+pdur/2, 0, psigned, true, pexpect, pchains, porig, "honest mem", nil)
+						ctx.verifyEvent(cloneBundle(pb), pdate+pdur/2, 0, psigned, true, pexpect, pchains, porig, "honest mem, looked at again after the next bundle was signed", nil)
 						ctx.urls = saved
 					}
 				}
